@@ -1,5 +1,6 @@
 import SE.Proofs.RegistryLabels
 import SE.Proofs.Hash
+import SE.Proofs.HashFnv
 import SE.Spec.FloatLaws
 /-
 C05 — Labels come only from the event's own tags and its own rule.
@@ -208,6 +209,73 @@ theorem names_hash_input_iff (a b : Labels) (ha : NoSep a) (hb : NoSep b) :
 theorem values_hash_input_iff (a b : Labels) (ha : NoSep a) (hb : NoSep b) :
     valuesHashInput a = valuesHashInput b ↔ a.sorted = b.sorted :=
   ⟨values_hash_input_injective a b ha hb, values_hash_input_congr a b⟩
+
+
+/-! ### The hash function itself (FNV-64a, `hash/fnv`)
+
+The registry keys vectors by `namesHash` and series by `valuesHash` (SE/Model/Hash.lean; both are compared
+bit for bit with `Registry.HashLabels` by the `hashlabels` stream). A 64-bit hash cannot be injective, so
+"two label sets never share a series" is not a theorem; what is: the hashes are functions of the sorted
+label list (no dependence on map order, on the registry or on earlier calls - the hasher is reset); the
+values hash continues the names hash; every FNV step is a bijection of the state, so a common suffix
+neither creates nor hides a collision; and inputs that differ in exactly one byte never collide - in
+particular two label sets with the same names that differ in one byte of one value are always kept apart. -/
+
+/-- the two hashes are FNV-64a of the two modelled inputs (the hasher is not reset between them) -/
+theorem hashes_are_fnv_of_inputs (l : Labels) :
+    namesHash l = fnv64a (namesHashInput l) ∧ valuesHash l = fnv64a (valuesHashInput l) :=
+  ⟨namesHash_eq l, valuesHash_eq l⟩
+
+/-- label maps with the same sorted form (the same Go map, whatever its iteration order) get the same hashes -/
+theorem hashes_depend_on_sorted_form_only (a b : Labels) (h : a.sorted = b.sorted) :
+    namesHash a = namesHash b ∧ valuesHash a = valuesHash b := by
+  rw [namesHash_eq, namesHash_eq, valuesHash_eq, valuesHash_eq,
+    values_hash_input_congr a b h, names_hash_input_congr a b (by rw [h])]
+  exact ⟨rfl, rfl⟩
+
+/-- one FNV step is injective in the state (a bijection of the 2^64 states: `fnv_step_invertible`) … -/
+theorem fnv_step_state_injective (h1 h2 : BitVec 64) (c : UInt8) : fnvStep h1 c = fnvStep h2 c → h1 = h2 :=
+  fnvStep_state_inj
+theorem fnv_step_invertible (h : BitVec 64) (c : UInt8) : fnvStep (fnvUnstep h c) c = h := fnvStep_unstep h c
+/-- … and in the byte -/
+theorem fnv_step_byte_injective (h : BitVec 64) (a b : UInt8) : fnvStep h a = fnvStep h b → a = b :=
+  fnvStep_byte_inj
+
+/-- a common suffix neither creates nor hides a collision -/
+theorem fnv_suffix_cancel (x y s : Bytes) : fnv64a (x ++ s) = fnv64a (y ++ s) ↔ fnv64a x = fnv64a y :=
+  fnv64a_suffix_cancel x y s
+
+/-- inputs that differ in exactly one byte never collide -/
+theorem fnv_one_byte_never_collides (p s : Bytes) (a b : UInt8) (hab : a ≠ b) :
+    fnv64a (p ++ a :: s) ≠ fnv64a (p ++ b :: s) := fnv64a_one_byte p s hab
+
+/-- hence: two hash inputs that differ in exactly one byte address different series -/
+theorem values_hash_one_byte_apart (l1 l2 : Labels) (p s : Bytes) (a b : UInt8) (hab : a ≠ b)
+    (h1 : valuesHashInput l1 = p ++ a :: s) (h2 : valuesHashInput l2 = p ++ b :: s) :
+    valuesHash l1 ≠ valuesHash l2 := by
+  rw [valuesHash_eq, valuesHash_eq, h1, h2]; exact fnv64a_one_byte p s hab
+
+/-- instance: one label, values differing in one byte (`{k="…x…"}` vs `{k="…y…"}`) -/
+theorem single_label_one_byte_apart (k pre suf : Bytes) (x y : UInt8) (hxy : x ≠ y) :
+    valuesHash [(k, pre ++ x :: suf)] ≠ valuesHash [(k, pre ++ y :: suf)] := by
+  apply values_hash_one_byte_apart _ _ (k ++ [sepByte] ++ [sepByte] ++ pre) (suf ++ [sepByte]) x y hxy <;>
+    simp [valuesHashInput, nameBuf, valueBuf, Labels.sorted, insertSorted]
+
+/-- same names ⇒ same vector key; and the values hash is the names hash continued over `ValueBuf` -/
+theorem values_hash_continues_names_hash (l : Labels) : valuesHash l = fnvFrom (namesHash l) (valueBuf l) := rfl
+
+/-- label sets with the same names share a series iff their `ValueBuf`s collide from the SAME state:
+    a collision is a property of the values alone given the names hash -/
+theorem same_names_collision_iff (a b : Labels) (h : namesHash a = namesHash b) :
+    valuesHash a = valuesHash b ↔ fnvFrom (namesHash a) (valueBuf a) = fnvFrom (namesHash a) (valueBuf b) := by
+  rw [values_hash_continues_names_hash, values_hash_continues_names_hash, h]
+
+-- known answers of FNV-64a (the published test vectors of hash/fnv: "", "a", "ab", "abc")
+example : fnv64a [] = 0xcbf29ce484222325#64 ∧ fnv64a [97] = 0xaf63dc4c8601ec8c#64 ∧
+    fnv64a [97, 98] = 0x089c4407b545986a#64 ∧ fnv64a [97, 98, 99] = 0xe71fa2190541574b#64 := by decide
+-- {a="1"}: names hash of `a FF`, values hash of `a FF FF 1 FF`
+example : namesHash [([97], [49])] = fnv64a [97, 255] ∧ valuesHash [([97], [49])] = fnv64a [97, 255, 255, 49, 255] := by
+  decide
 
 /-- the generic core: the separator encoding is injective on separator-free pieces -/
 theorem sep_encoding_injective {α : Type} (sep : α) (xs ys : List (List α)) :
